@@ -127,5 +127,48 @@ func run(p *Property, tier, repo, verif string, seed int64) (exit int) {
 		r.Run(c)
 		rep.Stats["ms_"+r.Name] = int(time.Since(t0).Milliseconds())
 	}
+	if tier == "thorough" {
+		thoroughSelfValidation(p, rep, repo, verif)
+	}
 	return rep.Finish(verif, seed, start, p.Explanation, p.Assumptions, c.Info)
+}
+
+// thoroughSelfValidation adds the checker's self-validation to the evidence of a thorough run: semantic mutants of the current tree
+// (each must be reported), the independent seeded changes of this property (each should be reported) and the corpus of
+// behaviour-preserving refactorings (each must stay silent). None of this changes the property verdict.
+func thoroughSelfValidation(p *Property, rep *Report, repo, verif string) {
+	t0 := time.Now()
+	mut := runMutants(p.ID, repo, verif)
+	killed, applicable := 0, 0
+	for _, m := range mut {
+		if m.Outcome == "not-applicable" {
+			continue
+		}
+		applicable++
+		if m.Outcome == "killed" {
+			killed++
+		} else {
+			rep.Note("SELF-VALIDATION WARNING: mutant %q was not reported (%s): this is a defect of the checker, not of vore", m.Name, m.Outcome)
+			fmt.Printf("  self-validation WARNING: mutant %q %s %s\n", m.Name, m.Outcome, m.Detail)
+		}
+	}
+	rep.Tables["self_validation_mutants"] = mut
+	rep.Stats["mutants_applicable"] = applicable
+	rep.Stats["mutants_killed"] = killed
+	seeds := runPatchCorpus(p.ID, repo, verif, filepath.Join(verif, "seeded"), p.ID)
+	rep.Tables["seeded_changes_of_this_property"] = seeds
+	refs := runPatchCorpus(p.ID, repo, verif, filepath.Join(verif, "refactors"), "R")
+	alarms := 0
+	for _, r := range refs {
+		if r.Outcome == "reported" {
+			alarms++
+			rep.Note("SELF-VALIDATION WARNING: behaviour-preserving refactoring %s is reported by %s: a false alarm of the checker", r.Name, r.Detail)
+			fmt.Printf("  self-validation WARNING: refactoring %s reported by %s\n", r.Name, r.Detail)
+		}
+	}
+	rep.Tables["behaviour_preserving_refactorings"] = refs
+	rep.Stats["refactorings_checked"] = len(refs)
+	rep.Stats["refactorings_falsely_reported"] = alarms
+	rep.Stats["ms_self_validation"] = int(time.Since(t0).Milliseconds())
+	fmt.Printf("  self-validation: %d/%d mutants reported; %d seeded changes examined; %d/%d refactorings silent or undecided\n", killed, applicable, len(seeds), len(refs)-alarms, len(refs))
 }
